@@ -532,6 +532,13 @@ def dump_stat(tab) -> str:
     return ' || '.join(out)
 
 
+def dump_stats(tab) -> str:
+    "branches open closed steps distinct_nodes result   (the observable counts of Tableau.stats)"
+    st = tab.stats
+    d = st.get('distinct_nodes')
+    return f"{st['branches']} {st['open_branches']} {st['closed_branches']} {st['steps']} {'_' if d is None else d} {st['result']}"
+
+
 def _drive(tab, ob, job, light):
     if job.get('mode') == 'build':
         tab.build()
@@ -591,7 +598,7 @@ def run_job(job):
                rules=[type(e.rule).__name__ for e in tab.history],
                request=f'tree {job["logic"]} ## {ob.trunk_wire}' + ''.join(f' ## {s}' for s in ob.steps),
                obs=' ;; '.join(ob.obs), tree=dump_tree(tab) if tab.tree is not None else None,
-               stat=dump_stat(tab), nstructs=(tab.tree.right // 2) if tab.tree is not None else 0)
+               stat=dump_stat(tab), stats=dump_stats(tab), nstructs=(tab.tree.right // 2) if tab.tree is not None else 0)
     return out
 
 
